@@ -166,6 +166,29 @@ def assigned_and_mutated(body):
     return names, paths
 
 
+class _AliasEnv(dict):
+    """local environment in which a contract's name for a renamed local resolves to the local's current name"""
+
+    def __init__(self, base):
+        dict.__init__(self, base)
+        self.alias = {}
+
+    def __missing__(self, k):
+        if k in self.alias:
+            return dict.__getitem__(self, self.alias[k])
+        raise KeyError(k)
+
+    def __contains__(self, k):
+        return dict.__contains__(self, k) or (k in self.alias and dict.__contains__(self, self.alias[k]))
+
+    def get(self, k, default=None):
+        if dict.__contains__(self, k):
+            return dict.__getitem__(self, k)
+        if k in self.alias:
+            return dict.get(self, self.alias[k], default)
+        return default
+
+
 class Frame:
     def __init__(self, fi, env):
         self.fi = fi
@@ -854,6 +877,7 @@ class Interp:
         names, paths = assigned_and_mutated(wrapper.body)
         tn, _ = assigned_and_mutated([ast.Assign(targets=[frame_nodes[0]], value=ast.Constant(0))])
         names |= tn
+        self._bind_renamed_local(fr, lspec, names, paths, tn, wrapper.body, tag)
         declared = set(lspec.havoc)
         # elements of m.items()/m.values() alias the map: a store through the loop target is a
         # store into the map
@@ -965,6 +989,36 @@ class Interp:
                 ctx.assume(f)
             if not is_set:
                 axioms(n)
+
+    def _bind_renamed_local(self, fr, lspec, names, paths, targets, body, tag):
+        """A loop contract names the locals it carries.  If exactly one carried local named by the contract no longer exists in the function and the loop
+        carries exactly one local the contract does not name, the two are the same variable under a new name (renaming a local is the commonest
+        harmless edit): the contract is read with that name.  A wrong guess cannot make a proof pass - every obligation is still about the real code."""
+        if isinstance(fr.env, _AliasEnv) and any(k in fr.env.alias for k in lspec.havoc):
+            # an enclosing loop contract already established the new name
+            lspec.havoc = {fr.env.alias.get(k, k): v for k, v in lspec.havoc.items()}
+        fn = fr.fi.node
+        assigned_in_fn = {n.id for n in ast.walk(fn) if isinstance(n, ast.Name) and isinstance(n.ctx, (ast.Store, ast.Del))}
+        params = {a.arg for a in fn.args.posonlyargs + fn.args.args + fn.args.kwonlyargs}
+        declared = [d for d in lspec.havoc if '.' not in d]
+        missing = [d for d in declared if d not in assigned_in_fn and d not in params and d not in fr.env]
+        if len(missing) != 1:
+            return
+        in_body = {n.id for st in body for n in ast.walk(st) if isinstance(n, ast.Name) and isinstance(n.ctx, ast.Store)}
+        body_ids = {id(n) for st in body for n in ast.walk(st)}
+        outside = {n.id for n in ast.walk(fn) if isinstance(n, ast.Name) and isinstance(n.ctx, ast.Store) and id(n) not in body_ids}
+        roots = {p.split('.')[0] for p in paths if p != '<complex>'}
+        declared_roots = {d.split('.')[0] for d in lspec.havoc}
+        cands = [x for x in sorted((names | roots) - declared_roots - set(targets))
+                 if x in fr.env and x in outside and not self._fresh_in_body(x, body) and not self._alias_of_declared(x, body, set(lspec.havoc))]
+        if len(cands) != 1:
+            return
+        old, new = missing[0], cands[0]
+        lspec.havoc = {(new if k == old else k): v for k, v in lspec.havoc.items()}
+        if not isinstance(fr.env, _AliasEnv):
+            fr.env = _AliasEnv(fr.env)
+        fr.env.alias[old] = new
+        self.ctx.note('contract local `%s` read as `%s` (%s)' % (old, new, tag)) if hasattr(self.ctx, 'note') else None
 
     def _alias_of_declared(self, name, body, declared):
         """True if every assignment to the local `name` in the loop body binds an element / attribute of state the loop contract declares
